@@ -14,10 +14,10 @@ variable {K : Type} [Field K] [LinearOrder K] [IsStrictOrderedRing K]
 /-- BoundingBox.includes -/
 
 @[gen_def] def bbox_includes (l1 b1 r1 t1 px py : K) : Bool :=
-  if l1 ≥ px then
-    if r1 ≤ px then
-      if b1 ≥ py then
-        if t1 ≤ py then
+  if l1 ≤ px then
+    if r1 ≥ px then
+      if b1 ≤ py then
+        if t1 ≥ py then
           true
         else
           false
